@@ -534,8 +534,35 @@ def gen_pair(rng):
     return {"a": 1}, {"a": 2}
 
 
+def gen_dld(rng):
+    """dict -> dict -> list / tuple -> dict with the differences in the innermost dicts"""
+    strings = V.STR_POOL[:8]
+
+    def inner():
+        return {k: rng.randint(0, 9) for k in rng.sample(strings, rng.randint(1, 3))}
+    ks = rng.sample(strings, 4)
+    seq = rng.choice([list, tuple])
+    t1 = {ks[0]: {ks[1]: seq([inner() for _ in range(rng.randint(1, 3))]), ks[2]: inner()},
+          ks[1]: [inner(), (inner(),)], ks[3]: rng.randint(0, 5)}
+    t2 = copy.deepcopy(t1)
+    leaves = [p for p in cpositions(t2) if p and isinstance(_at(t2, p), dict) and p[-1][0] == "x"]
+    for p in rng.sample(leaves, min(len(leaves), rng.randint(1, 3))):
+        d = dict(_at(t2, p))
+        c = rng.random()
+        if c < 0.5 and d:
+            d[rng.choice(list(d))] = rng.randint(10, 19)
+        elif c < 0.8:
+            d[rng.choice(strings)] = rng.randint(10, 19)
+        elif d:
+            del d[rng.choice(list(d))]
+        t2 = V.set_at(t2, D.py_path(p), d)
+    return t1, t2
+
+
 def gen_pair_records(rng):
     """string-keyed records: dict -> dict / list of dicts -> dict ..., differences deep inside"""
+    if rng.random() < 0.4:
+        return gen_dld(rng)
     strings = V.STR_POOL[:8]
     for _ in range(30):
         t1 = V.gen_value(rng, depth=4, width=3, strings=strings, kinds=rng.choice(["DDL", "DLD", "DLDT"]),
@@ -843,12 +870,12 @@ def _work(args):
     def cnt(k, n=1):
         counts[k] = counts.get(k, 0) + n
     for _ in range(npairs):
-        t1, t2 = gen_pair_records(rng) if rng.random() < 0.25 else gen_pair(rng)
-        shared = None
-        if rng.random() < 0.3:
+        t1, t2 = gen_pair_records(rng) if rng.random() < 0.3 else gen_pair(rng)
+        shared_obj = None
+        if rng.random() < 0.5:
             sp = share_pair(rng, t1, t2)
             if sp:
-                t1, t2, shared = sp
+                t1, t2, shared_obj = sp
                 cnt("pairs_with_shared_object")
         P = all_positions(t1, t2)
         base = {}
@@ -864,8 +891,8 @@ def _work(args):
             hot = [p for p in P if json.dumps(p) in keys]
             base[(True, 0)] = (b0, run_text(t1, t2, {"zip": True, "thr": 0}))
         for opt in gen_options(rng, t1, t2, P, nopts, hot):
-            if shared:
-                opt["share"] = shared
+            if shared_obj:
+                opt["share"] = shared_obj
             bk = (opt["zip"], opt["thr"])
             if bk not in base:
                 bopt = {"zip": opt["zip"], "thr": opt["thr"]}
